@@ -461,9 +461,20 @@ func checkC13(c *core.Ctx) {
 		} else {
 			src = RenderIgnored(UnparseSchema(sg.Doc(), rng), rng)
 		}
-		d0, err := parser.ParseSchema(&ast.Source{Input: src, Name: "s"})
+		// every fourth document comes from a BUILT-IN source and is formatted WithBuiltin (without that option the
+		// formatter leaves built-in definitions out by design, so only this configuration is a round trip for it)
+		builtin := i%4 == 3
+		d0, err := parser.ParseSchema(&ast.Source{Input: src, Name: "s", BuiltIn: builtin})
 		if err != nil {
 			continue
+		}
+		if builtin {
+			withB := make([]fmtOpts, len(opts))
+			for k, o := range opts {
+				o.Builtin = true
+				withB[k] = o
+			}
+			opts = withB
 		}
 		// what the parser produced, projected ONCE: every formatting of this document (under whatever options,
 		// after whatever earlier formatting) must denote it
